@@ -6,7 +6,7 @@
    their invocation and response) has a linearisation w.r.t. the finite-map specification starting from the map m. *)
 From Coq Require Import List NArith Bool Arith.
 From QV Require Import Dict.Micro Dict.MicroFull Dict.MicroFullHist Dict.MicroFullProofs Dict.MicroFullWitness
-                       Dict.MicroFullBounded Dict.MicroFullBoundedAll Dict.MicroFullNoDel Dict.MicroFullGrants.
+                       Dict.MicroFullBounded Dict.MicroFullCore Dict.MicroFullNoDel Dict.MicroFullGrants.
 Import ListNotations.
 
 (* ---------- (a) the three open findings as refutations: witnesses = the corpus schedules replayed on the real code ---------- *)
@@ -59,32 +59,34 @@ Proof. exact no_delete_never_marks. Qed.
 Print Assumptions dict_no_delete_never_marks_or_reclaims.
 
 (* PARTIAL (bounded family, unbounded schedules): the code as it is, {put_if_absent, get} and put on a key that is absent and
-   that nobody else puts: for each of the 12 configurations of famI (3 tasks x 1 operation on the list {1}; 2 tasks x 2
-   operations on the collision chain {3,1}) EVERY schedule of grants gives a linearizable history *)
+   that nobody else puts: for the configuration of code_core_sp (3 tasks: put_if_absent(2), put(4), get(2) on the list {1})
+   EVERY schedule of grants gives a linearizable history.  (12 more configurations: MicroFullBoundedAll.code_insert_sp_all,
+   checked by coqc only.)  The general theorems for {put_if_absent, get} are those of Properties_C16.v (Dict/Micro.v). *)
 Theorem dict_linearizable_without_delete_and_replace_bounded_partial :
-  forall c, In c famI -> forall g,
+  forall c, In c code_core_sp -> forall g,
     let s := frun_grants pol_code wit_sof N.eqb (cfg_init c) g in
     fdone s = true -> lin (amap_of (fst c)) (hist_of s).
-Proof. exact code_insert_sp_all. Qed.
+Proof. exact code_core_sp_all. Qed.
 Print Assumptions dict_linearizable_without_delete_and_replace_bounded_partial.
 
 (* PARTIAL (bounded family, unbounded schedules): under the policy of the proposed patch (atomic delete, unlinked nodes not
-   recycled) {delete, put_if_absent, get}: for each of the 60 configurations of patch_family_sp -- among them the configurations
-   of the delete witnesses above -- EVERY schedule of grants gives a linearizable history *)
+   recycled) {delete, put_if_absent, get}: for each of the 4 configurations of patch_core_sp -- the configurations of the two delete
+   witnesses above, delete || put_if_absent || get of one key, delete-then-insert || insert-behind-the-deleted-node -- EVERY
+   schedule of grants gives a linearizable history.  (60 configurations: MicroFullBoundedAll.patch_sp_all, checked by coqc only.) *)
 Theorem dict_delete_linearizable_if_no_recycling_bounded_partial :
-  forall c, In c patch_family_sp -> forall g,
+  forall c, In c patch_core_sp -> forall g,
     let s := frun_grants pol_patch wit_sof N.eqb (cfg_init c) g in
     fdone s = true -> lin (amap_of (fst c)) (hist_of s).
-Proof. exact patch_sp_all. Qed.
+Proof. exact patch_core_sp_all. Qed.
 Print Assumptions dict_delete_linearizable_if_no_recycling_bounded_partial.
 
-(* the same at the granularity of single machine steps (every access to shared memory is a possible task switch), for the 7
-   two-task configurations of patch_family_steps *)
+(* the same at the granularity of single machine steps (every access to shared memory is a possible task switch), for the 4
+   two-task configurations of patch_core_steps on the empty dictionary (7: MicroFullBoundedAll.patch_steps_all, coqc only) *)
 Theorem dict_delete_linearizable_if_no_recycling_steps_bounded_partial :
-  forall c, In c patch_family_steps -> forall sched,
+  forall c, In c patch_core_steps -> forall sched,
     let s := frun pol_patch wit_sof N.eqb (cfg_init c) sched in
     fdone s = true -> lin (amap_of (fst c)) (hist_of s).
-Proof. exact patch_steps_all. Qed.
+Proof. exact patch_core_steps_all. Qed.
 Print Assumptions dict_delete_linearizable_if_no_recycling_steps_bounded_partial.
 
 (* ---------- the tools are sound: the checker the tie uses decides lin; the explorers cover every schedule ---------- *)
